@@ -26,6 +26,14 @@ impl<'a> Iterator for Ipv6ExtensionSliceIter<'a> {
         use ip_number::*;
         use Ipv6ExtensionSlice::*;
 
+        // A lax parsed `Ipv6ExtensionsSlice` ends in front of the first
+        // header that could not be decoded, while the last valid header
+        // still refers to it via its "next header" field. Nothing is left
+        // to be iterated in that case.
+        if self.rest.is_empty() {
+            return None;
+        }
+
         match self.next_header {
             // Note on the unsafe calls:
             //
